@@ -82,7 +82,7 @@ ALIAS_FUNCS = {"as_tensor", "asarray", "from_numpy", "atleast_1d", "atleast_2d",
                "broadcast_tensors", "diagonal", "real", "imag", "unflatten", "tensor_split", "cast"}
 CONTAINER_FUNCS = {"zip", "enumerate", "list", "tuple", "reversed", "sorted", "iter", "next", "set",
                    "dict", "chain", "defaultdict", "deque"}
-NONRAISING_METHODS = {"to", "detach", "size", "dim", "numel", "append", "extend", "items", "keys", "values"}
+NONRAISING_METHODS = {"to", "detach", "clone", "size", "dim", "numel", "append", "extend", "items", "keys", "values"}
 NONRAISING_FUNCS = {"len", "range", "isinstance", "super"}
 FORBIDDEN_CALLS = {"getattr", "setattr", "delattr", "exec", "eval", "vars", "globals", "locals", "__import__"}
 LIST_MUTATORS = {"append", "extend", "insert"}
@@ -1224,6 +1224,32 @@ def written_outside_init(chain):
     return written
 
 
+def reset_assigned(chain):
+    """attributes that an overriding reset() re-binds to the same literal that __init__ gives them
+    (so reset() restores them although they are not registered states)"""
+    init_const, out = {}, []
+    for mi, cd in chain:
+        for m in cd.body:
+            if isinstance(m, ast.FunctionDef) and m.name == "__init__":
+                for n in ast.walk(m):
+                    if isinstance(n, ast.Assign) and isinstance(n.value, ast.Constant):
+                        for t in n.targets:
+                            a = self_base(t)
+                            if a and isinstance(t, ast.Attribute):
+                                init_const.setdefault(a, n.value.value)
+    for mi, cd in chain:
+        for m in cd.body:
+            if isinstance(m, ast.FunctionDef) and m.name == "reset":
+                for n in m.body:                                   # top-level, unconditional statements only
+                    if isinstance(n, ast.Assign) and isinstance(n.value, ast.Constant):
+                        for t in n.targets:
+                            if isinstance(t, ast.Attribute) and self_base(t) and self_base(t) in init_const \
+                                    and init_const[self_base(t)] == n.value.value and type(init_const[self_base(t)]) is type(n.value.value):
+                                out.append(self_base(t))
+                break
+    return sorted(set(out))
+
+
 # --------------------------------------------------------------------------------------------
 # Coq printers
 # --------------------------------------------------------------------------------------------
@@ -1318,7 +1344,7 @@ def main():
 
     # ---- classes -------------------------------------------------------------------------------
     for name, pycls in classes.items():
-        ent = {"methods": {}, "registered": [], "written": [], "written_at": {}, "kinds": {}, "file": ""}
+        ent = {"methods": {}, "registered": [], "written": [], "written_at": {}, "kinds": {}, "file": "", "reset_assigned": []}
         report["classes"][name] = ent
         try:
             chain = class_chain(pycls, Metric)
@@ -1347,6 +1373,7 @@ def main():
         wr = written_outside_init(chain)
         ent["written"] = sorted(wr)
         ent["written_at"] = wr
+        ent["reset_assigned"] = reset_assigned(chain)
         cc = ClassCtx(name, pycls, kinds, chain)
         for m in ENTRY_METHODS:
             h = cc.method(m)
@@ -1418,7 +1445,7 @@ def main():
                     sk = ent["methods"].get("compute")
                     live = sk is not None and a in EC.purity_offences(sk, {x for x, _ in ent["registered"]})
                 elif kind == "registry":
-                    live = item in EC.registry_offences(ent)
+                    live = item in EC.registry_offences(ent, ent["reset_assigned"] if f.get("property") == "C10" else ())
                 elif kind == "commit":
                     sk = ent["methods"].get("update")
                     live = sk is not None and item in EC.dirty_raises(sk)
@@ -1460,6 +1487,9 @@ def main():
     Rg.append(";\n".join(
         f"  ({q(n)}, ([" + "; ".join(f"({q(f)}, {KN[k]})" for f, k in e["registered"]) + "],\n     [" +
         "; ".join(q(w) for w in e["written"]) + "]))" for n, e in report["classes"].items()) + "].\n")
+    Rg.append("(* (class, attribute) re-bound by an overriding reset() to the literal __init__ gives it: covered by reset() (C10 only) *)")
+    Rg.append("Definition reset_assigned : list (string * fld) := [" +
+              "; ".join(f"({q(n)}, {q(a)})" for n, e in report["classes"].items() for a in e["reset_assigned"]) + "].\n")
     write_if_changed(GEN / "Registry.v", "\n".join(Rg))
 
     Fa = [HEADER, "From Coq Require Import List String.\nImport ListNotations.\nOpen Scope string_scope.\n",
@@ -1479,8 +1509,9 @@ def main():
              "; ".join(f"({q(e['class'])}, {coq_atom(tuple_atom(e['item']))})" for e in dedupe(excuses["alias"])) + "].")
     K.append("Definition pure_excused : list (string * atom) := [" +
              "; ".join(f"({q(e['class'])}, {coq_atom(tuple_atom(e['item']))})" for e in dedupe(excuses["pure"])) + "].")
-    K.append("Definition registry_excused : list (string * fld) := [" +
-             "; ".join(f"({q(e['class'])}, {q(e['item'])})" for e in dedupe(excuses["registry"])) + "].")
+    for prop, nm in (("C09", "registry_excused_load"), ("C10", "registry_excused_reset")):
+        K.append(f"Definition {nm} : list (string * fld) := [" +
+                 "; ".join(f"({q(e['class'])}, {q(e['item'])})" for e in dedupe([x for x in excuses["registry"] if x["property"] == prop])) + "].")
     K.append("Definition commit_excused : list (string * string) := [" +
              "; ".join(f"({q(e['class'])}, {q(e['item'])})" for e in dedupe(excuses["commit"])) + "].\n")
     write_if_changed(GEN / "KnownEffects.v", "\n".join(K))
